@@ -122,7 +122,8 @@ class SemChecker:
             if why:
                 kind = "derived-" + o_new[0] + (":" + o_new[1] if o_new[0] != "done" else "")
                 if o_new[0] == "done":
-                    kind = "config-mismatch" if why.startswith("config") else "value-mismatch"
+                    kind = ("config-mismatch" if why.startswith("config")
+                            else "uninit-result" if why.endswith("vs none") else "value-mismatch")
                 return {"kind": kind, "detail": why, "input": export.render_input(d_old),
                         "input_new": export.render_input(d_new), "old_outcome": repr(o_old)[:400],
                         "new_outcome": repr(o_new)[:400], "reported_mod_fields": sorted(ignore)}
